@@ -14,7 +14,12 @@ RULE = ('histories over the name lattice /a, /a/b, /a/b/c, /x (with/without impl
         'several per name, events Express+Await/Data/Nack/VDone/Cancel/Shutdown/AdvanceTo with event times drawn at, one '
         'before and one after pending deadlines and all three tie linearisations; targeted patterns always present '
         '(cancel then late Nack/Data, validator outliving the lifetime with a second Interest on the name, mixed '
-        'CanBePrefix, ties, shutdown with validations in flight, digests); thorough: all histories up to 5 events over '
+        'CanBePrefix, ties, shutdown with validations in flight, digests); Nack reasons drawn from every value / encoding a '
+        'forwarder may send: NackReason 0, a Nack header without NackReason (= reason None), 1, 50/100/150, the width '
+        'boundaries 255/256/65535/65536/2^32-1/2^32/2^64-1 and non-shortest 2/4/8-byte encodings - as a targeted table '
+        '(18 forms x 6 patterns: alone, at the deadline in all tie modes, with implicit digest, while the application serves '
+        'the prefix itself, repeated, next to a validating Interest) and in the random histories (about half falsy / boundary); '
+        'an Interest handler called without an incoming Interest is an oracle failure; thorough: all histories up to 5 events over '
         '2 names x 3 Interests + a 1/40 sample of the 6-event ones; both front-ends. non-trivial = at least one Interest and more than two events')
 ASSUMPTIONS = ['asyncio (CPython 3.12: Future, Task.cancel, wait_for/timeouts.Timeout, FIFO ready queue) is the event '
                'alphabet of the model; the three tie modes are the linearisations a loop turn permits',
